@@ -271,13 +271,16 @@ def harness_build(meta, wd):
     for k, v in meta.get("build_env", {}).items():
         env[k] = v
     t0 = time.time()
-    modargs = []
+    # always build through a private copy of go.mod/go.sum (-modfile): -mod=mod may rewrite the file it
+    # uses, and concurrent checks must not race on the shared one; a scratch worktree (VERIF_REPO) is
+    # reached by redirecting the replace directives in that copy
+    modf = os.path.join(wd, "go.alt.mod")
+    txt = open(os.path.join(HARNESS, "go.mod")).read()
     if os.path.abspath(REPO) != "/repo":
-        # scratch worktree: same harness sources, replace directives redirected through -modfile
-        modf = os.path.join(wd, "go.alt.mod")
-        open(modf, "w").write(open(os.path.join(HARNESS, "go.mod")).read().replace("=> /repo", "=> " + os.path.abspath(REPO)))
-        shutil.copy(dst, os.path.join(wd, "go.alt.sum"))
-        modargs = ["-modfile=" + modf]
+        txt = txt.replace("=> /repo", "=> " + os.path.abspath(REPO))
+    open(modf, "w").write(txt)
+    shutil.copy(dst, os.path.join(wd, "go.alt.sum"))
+    modargs = ["-modfile=" + modf]
     rc, out = run(["go", "build"] + modargs + ["-tags", tags, "-o", out_bin, "./" + name], cwd=HARNESS, env=env, timeout=1500)
     log("harness build %.1fs rc=%d" % (time.time() - t0, rc))
     if rc != 0:
